@@ -306,10 +306,10 @@ namespace GeographicLib {
   Math::real Geoid::height(real lat, real lon) const {
     using std::isnan;           // Needed for Centos 7, ubuntu 14
     lat = Math::LatFix(lat);
+    lon = Math::AngNormalize(lon); // this converts +/-inf to NaN
     if (isnan(lat) || isnan(lon)) {
       return Math::NaN();
     }
-    lon = Math::AngNormalize(lon);
     real
       fx =  lon * _rlonres,
       fy = -lat * _rlatres;
@@ -406,6 +406,7 @@ namespace GeographicLib {
   }
 
   void Geoid::CacheArea(real south, real west, real north, real east) const {
+    using std::isnan;           // Needed for Centos 7, ubuntu 14
     if (_threadsafe)
       throw GeographicErr("Attempt to change cache of threadsafe Geoid");
     if (south > north) {
@@ -416,6 +417,12 @@ namespace GeographicLib {
     north = Math::LatFix(north);
     west = Math::AngNormalize(west); // west in [-180, 180)
     east = Math::AngNormalize(east);
+    if (isnan(south) || isnan(north) || isnan(west) || isnan(east)) {
+      // No area is specified (LatFix and AngNormalize return NaN for
+      // latitudes outside [-90, 90] and for non-finite longitudes)
+      CacheClear();
+      return;
+    }
     if (east <= west)
       east += Math::td;         // east - west in (0, 360]
     int
